@@ -81,3 +81,265 @@ class patched:
 
 
 _MISSING = object()
+
+
+# =====================================================================================
+# E1/E2/E4: an in-memory world for the peltool command line
+# =====================================================================================
+import posixpath as _pp
+
+
+class FaultInjected(OSError):
+    pass
+
+
+class World:
+    """In-memory directory tree + recorder of every observable effect.
+
+    files   : list of (name, bytes) directly in `path` (os.walk order = list order)
+    subdirs : dict name -> list of (name, bytes)
+    extra   : dict absolute path -> bytes/str readable through open() (e.g. the --src-exclude file)
+    fault_at: output step number (1-based, counted over open-for-write/write/flush/close/print events)
+              at which an OSError is raised, or None / 0
+    events  : ("stdout", obj) ("stderr", obj) ("open_w", path) ("write", path, data) ("close", path)
+              ("remove", path) ("flush",) ("exit", code)
+    """
+
+    def __init__(self, path="/pels", files=(), subdirs=None, extra=None, fault_at=None, dirs=()):
+        self.path = path
+        self.files = list(files)
+        self.subdirs = dict(subdirs or {})
+        self.extra = dict(extra or {})
+        self.fault_at = fault_at
+        self.events = []
+        self.steps = 0
+        self.removed = []
+        self.written = {}
+        self.dirs = set(dirs) | {path} | {_pp.join(path, d) for d in self.subdirs}
+
+    # ---- fault injection
+    def _step(self, what):
+        self.steps += 1
+        if self.fault_at is not None and self.fault_at == self.steps:
+            self.events.append(("fault", what, self.steps))
+            raise FaultInjected(28, "No space left on device (injected at step %d: %s)" % (self.steps, what))
+
+    # ---- lookup
+    def _lookup(self, p):
+        d, n = _pp.split(p)
+        if d == self.path.rstrip("/") or d + "/" == self.path:
+            for name, data in self.files:
+                if name == n:
+                    return data
+        for sd, entries in self.subdirs.items():
+            if d == _pp.join(self.path, sd):
+                for name, data in entries:
+                    if name == n:
+                        return data
+        if p in self.extra:
+            return self.extra[p]
+        return None
+
+    def stdout(self):
+        return [e[1] for e in self.events if e[0] == "stdout"]
+
+    def stderr(self):
+        return [e[1] for e in self.events if e[0] == "stderr"]
+
+
+class _RFile:
+    def __init__(self, data, text):
+        self.data, self.text = data, text
+
+    def read(self):
+        return self.data
+
+    def readlines(self):
+        return self.data.splitlines(True)
+
+    def __iter__(self):
+        return iter(self.readlines())
+
+    def __enter__(self):
+        return self
+
+    def __exit__(self, *a):
+        return False
+
+    def close(self):
+        pass
+
+
+class _WFile:
+    def __init__(self, world, path):
+        self.w, self.path, self.closed = world, path, False
+        self.w.written[path] = []
+
+    def writelines(self, s):
+        self.w._step("write")
+        self.w.events.append(("write", self.path, s))
+        self.w.written[self.path].append(s)
+
+    write = writelines
+
+    def flush(self):
+        self.w._step("flush")
+
+    def close(self):
+        if not self.closed:
+            self.closed = True
+            self.w._step("close")
+            self.w.events.append(("close", self.path))
+
+    def __enter__(self):
+        return self
+
+    def __exit__(self, et, ev, tb):
+        self.close()
+        return False
+
+
+class FakeStderr:
+    pass
+
+
+class FakeStdout:
+    def __init__(self, world):
+        self.w = world
+
+    def flush(self):
+        self.w._step("flush-stdout")
+        self.w.events.append(("flush",))
+
+
+class FakeSys:
+    def __init__(self, world, argv):
+        self.argv = argv
+        self.stderr = FakeStderr()
+        self.stdout = FakeStdout(world)
+        self._w = world
+
+    def exit(self, code=0):
+        self._w.events.append(("exit", code))
+        raise SystemExit(code)
+
+
+class _FakePath:
+    join = staticmethod(_pp.join)
+    basename = staticmethod(_pp.basename)
+    dirname = staticmethod(_pp.dirname)
+    splitext = staticmethod(_pp.splitext)
+
+    def __init__(self, world):
+        self.w = world
+
+    def isdir(self, p):
+        return p in self.w.dirs or p.rstrip("/") in self.w.dirs
+
+    def isfile(self, p):
+        return self.w._lookup(p) is not None
+
+    def exists(self, p):
+        return self.isdir(p) or self.isfile(p)
+
+
+class FakeOs:
+    def __init__(self, world):
+        self.w = world
+        self.path = _FakePath(world)
+
+    def walk(self, top):
+        if top.rstrip("/") != self.w.path.rstrip("/"):
+            for sd, entries in self.w.subdirs.items():
+                if top.rstrip("/") == _pp.join(self.w.path, sd):
+                    yield top, [], [n for n, _ in entries]
+            return
+        yield top, list(self.w.subdirs.keys()), [n for n, _ in self.w.files]
+        for sd, entries in self.w.subdirs.items():
+            yield _pp.join(top, sd), [], [n for n, _ in entries]
+
+    def remove(self, p):
+        self.w.events.append(("remove", p))
+        self.w.removed.append(p)
+
+    def listdir(self, p):
+        return [n for n, _ in self.w.files]
+
+
+def make_open(world):
+    def fake_open(path, mode="r", *a, **k):
+        if "w" in mode or "a" in mode or "+" in mode:
+            world._step("open")
+            world.events.append(("open_w", path))
+            return _WFile(world, path)
+        data = world._lookup(path)
+        if data is None:
+            raise FileNotFoundError(2, "No such file or directory", path)
+        return _RFile(data, "b" not in mode)
+    return fake_open
+
+
+def make_print(world, fsys):
+    def fake_print(*a, **k):
+        f = k.get("file")
+        chan = "stderr" if f is fsys.stderr else "stdout"
+        if chan == "stdout":
+            world._step("print")
+        obj = a[0] if len(a) == 1 else a
+        world.events.append((chan, obj, k.get("end", "\n")))
+    return fake_print
+
+
+class Namespace:
+    def __init__(self, **kw):
+        self.__dict__.update(kw)
+
+
+ARG_DEFAULTS = dict(path=None, archive=False, skip_plugins=False, file=None, list=False, all=False, show_pel_count=False,
+                    IDToDelete=None, deleteAll=False, pelID=None, bmcID=None, plID=None, src=None, src_exclude_file=None,
+                    hex=False, reverse=False, extension=None, every_pel=False, serviceable=False, non_serviceable=False,
+                    hidden=False, critSysTerm=False, severities=None, only=False, json=False, output_dir=None, clean=False)
+
+
+class FakeArgparse:
+    """E4: argparse whose parse_args() returns the namespace chosen by the harness; records the declared
+    destinations so that a renamed / dropped option shows up as an AttributeError in main()."""
+    RawDescriptionHelpFormatter = object
+
+    def __init__(self, ns):
+        self.ns = ns
+        self.dests = []
+        outer = self
+
+        class _Group:
+            def add_argument(self, *names, **kw):
+                outer.dests.append(kw.get("dest") or names[-1].lstrip("-").replace("-", "_"))
+
+        class ArgumentParser(_Group):
+            def __init__(self, *a, **k):
+                pass
+
+            def add_argument_group(self, *a, **k):
+                return _Group()
+
+            def parse_args(self, *a, **k):
+                return outer.ns
+
+        self.ArgumentParser = ArgumentParser
+
+
+def run_main(peltool, world, ns, fj=None, in_bmc=False):
+    """run the real peltool.main() inside the world; returns exit status (None if main returned)"""
+    fj = fj or FakeJson()
+    fsys = FakeSys(world, ["peltool.py"])
+    fos = FakeOs(world)
+    if in_bmc:
+        world.dirs.add("/var/lib/phosphor-logging/extensions/pels/logs/")
+    status = None
+    try:
+        with patched(peltool, json=fj, prettyPrint=lambda t, *a, **k: t, print=make_print(world, fsys),
+                     open=make_open(world), os=fos, sys=fsys, argparse=FakeArgparse(ns)):
+            peltool.main()
+    except SystemExit as e:
+        status = e.code
+    return status
